@@ -59,7 +59,7 @@ if rc == 0:
     for c in checks:
         rc, o = sh("./check %s" % c, cwd="/verif", env=dict(ENV, VERIF_REPO=WT), timeout=1500)
         v = [l for l in o.splitlines() if l.startswith("VIOLATION")]
-        det[c] = dict(exit=rc, violations=len(v), first=(v[0] if v else ""), detail=[l for l in o.splitlines() if l.startswith("  ")][:2], summary=o.splitlines()[-1] if o else "")
+        det[c] = dict(exit=rc, violations=len(v), with_input=len([l for l in v if "no-failing-input-found" not in l]), first=(v[0] if v else ""), detail=[l for l in o.splitlines() if l.startswith("  ")][:2], summary=o.splitlines()[-1] if o else "")
     out["checks"] = det
 reset()
 json.dump(out, open(os.path.join(d, "confirm.json"), "w"), indent=1)
